@@ -307,7 +307,7 @@ def run(rep, tier):
 
 def run_plan(rep, prog, entry, name, N, F, alpha, prior):
     it = Interp(prog, models_std.MODELS + MODELS, {}, unwind=F + 6,
-                merge=('::type_log_safety', '::type_log_safety_ref', '::is_safe_arg', '::is_legacy_safe_arg'))
+                merge=(r'::context::<impl at [^>]*>::(type_log_safety|combine_safety|is_safe_arg|is_legacy_safe|primitive_log_safety)',))
     dec = Decider(rep, it)
     st = St()
     g = Graph(it, st, N, F, alpha)
